@@ -668,12 +668,15 @@ func (f Function) Unwrap(forceStringKeys bool) any {
 func (f Function) Type() Type { return FUNC }
 
 // Must be called after the function is fully initialized.
-// Whether a function result should be cached doesn't depend on the Name,
-// so it's not part of the cache key.
+// The name is part of the key: a body can refer to its own function (self), two functions
+// with the same text but different names are different functions (func a(){self}; func b(){self}).
 func SetCacheKey(f *Function) string {
 	out := strings.Builder{}
 	if !f.Lambda {
 		out.WriteString("func ")
+		if f.Name != nil {
+			out.WriteString(f.Name.Literal())
+		}
 	}
 	f.CacheKey = f.finishFuncOutput(&out, true)
 	return f.CacheKey
